@@ -225,7 +225,20 @@ class Interp:
         defaults = [None] * (len(a.posonlyargs + a.args) - len(a.defaults)) \
             + list(a.defaults) + list(a.kw_defaults)
         for p, d in zip(params, defaults):
-            v = (args or {}).get(p.arg)
+            v = None
+            if p.arg in self.specialise and isinstance(
+                    self.specialise[p.arg], AV):
+                v = self.specialise[p.arg]
+            elif p.arg in self.specialise:
+                v = self.const(self.specialise[p.arg])
+            if v is None and self.lib is not None and depth == 0:
+                # documented contracts take precedence over what the (few)
+                # in-package call sites happen to pass
+                c = self.lib.param_default(self, fi, p.arg, d)
+                if c is not None and not c.is_top:
+                    v = c
+            if v is None:
+                v = (args or {}).get(p.arg)
             if v is None and p.arg in self.specialise:
                 v = self.const(self.specialise[p.arg])
             if v is None:
@@ -453,7 +466,8 @@ class Interp:
             elif self.lib is not None:
                 parts = self.lib.unpack(self, val, n, stmt)
             if parts is None:
-                ev = val.elem if val.elem is not None else TOP
+                ev = val.elem if val.elem is not None else \
+                    self.iter_elem(val)
                 if val.src:
                     ev = ev.with_(src=ev.src | val.src)
                 parts = [ev] * n
@@ -973,14 +987,16 @@ class World:
         self._next = {}
         self.summaries.clear()
         for fi in self.roots():
-            it = Interp(self.prog, fi, observers=observers,
-                        args=self.param_env.get(fi.qualname),
-                        lib=self.lib, world=self)
-            try:
-                it.run()
-            except RecursionError:
-                pass
-            for o in observers:
-                fin = getattr(o, "finish", None)
-                if fin:
-                    fin(it)
+            specs = self.lib.specialisations(fi) if self.lib else None
+            for spec in (specs or [None]):
+                it = Interp(self.prog, fi, observers=observers,
+                            args=self.param_env.get(fi.qualname),
+                            lib=self.lib, world=self, specialise=spec)
+                try:
+                    it.run()
+                except RecursionError:
+                    pass
+                for o in observers:
+                    fin = getattr(o, "finish", None)
+                    if fin:
+                        fin(it)
